@@ -29,3 +29,16 @@ package fs
 //@   ensures err == nil ==> (forall i int :: old(len(SpecFile[f])) <= i && i < int(off) ==> SpecFile[f][i] == 0)
 //@   ensures forall g File :: g != f ==> __eq(SpecFile[g], old(SpecFile[g]))
 //@   modifies SpecFile
+
+//@ # ---- directory: which names exist (ghost), and which errors mean "no such file"
+//@ decl type SpecFN struct { F FS; N string }
+//@ ghost SpecExists map[SpecFN]bool
+//@ spec func SpecAbsent(err error) bool
+//@ trusted func (f FS) Exists(name string) (e bool, err error)
+//@   ensures err == nil ==> e == SpecExists[SpecFN{F: f, N: name}]
+//@   ensures err != nil ==> !SpecAbsent(err)
+//@   modifies nothing
+//@ trusted func (f FS) Stat(name string) (info FileInfo, err error)
+//@   ensures !SpecExists[SpecFN{F: f, N: name}] ==> err != nil && SpecAbsent(err)
+//@   ensures SpecExists[SpecFN{F: f, N: name}] && err != nil ==> !SpecAbsent(err)
+//@   modifies nothing
